@@ -102,6 +102,8 @@ type vFunc struct {
 	params   []*vParam
 	results  []*vResult
 	retErr   bool
+	errFirst bool // the error result comes first instead of last
+	reenter  bool // execution 0 re-enters the container (Invoke of its own first result key)
 	variadic bool
 	export   bool
 	callback bool
@@ -239,7 +241,13 @@ func (f *vFunc) layout() {
 		outs = append(outs, reflect.StructOf(ofields))
 	}
 	f.errOut = -1
-	if f.retErr {
+	if f.retErr && f.errFirst {
+		f.errOut = 0
+		outs = append([]reflect.Type{vErrType}, outs...)
+		for i := range f.rOut {
+			f.rOut[i]++
+		}
+	} else if f.retErr {
 		f.errOut = len(outs)
 		outs = append(outs, vErrType)
 	}
@@ -277,6 +285,8 @@ type vExec struct {
 	invoke  int // index of the Invoke during which it ran (-1 outside)
 	tEnter  int64
 	tExit   int64
+	nested  int  // outcome class of the nested Invoke (re-entering functions), -1 if none
+	nestRan bool // the nested Invoke called its function
 }
 
 type vReg struct {
@@ -463,7 +473,7 @@ func vField(v reflect.Value, path []int) reflect.Value {
 func (w *vWorld) makeFn(r *vReg) reflect.Value {
 	f := r.f
 	return reflect.MakeFunc(f.typ, func(args []reflect.Value) []reflect.Value {
-		e := &vExec{reg: r, n: len(r.execs), invoke: w.cur}
+		e := &vExec{reg: r, n: len(r.execs), invoke: w.cur, nested: -1}
 		r.execs = append(r.execs, e)
 		w.nexec++
 		for i, p := range f.params {
@@ -487,6 +497,9 @@ func (w *vWorld) makeFn(r *vReg) reflect.Value {
 		}
 		if w.onEnter != nil {
 			w.onEnter(w, e)
+		}
+		if f.reenter && e.n == 0 && len(f.results) > 0 {
+			w.reenter(r, e)
 		}
 		outs := make([]reflect.Value, len(f.outTypes))
 		for i, t := range f.outTypes {
@@ -535,6 +548,30 @@ func (w *vWorld) makeFn(r *vReg) reflect.Value {
 		}
 		return outs
 	})
+}
+
+// reenter makes the running function r call Invoke on its own scope for the
+// first key it produces (a dependency edge the static graph cannot see).
+func (w *vWorld) reenter(r *vReg, e *vExec) {
+	k := r.f.results[0].keys()[0]
+	p := &vParam{t: k.t, name: k.name, group: k.group}
+	if k.name != "" || k.group != "" {
+		p.form = 1
+	}
+	g := &vFunc{id: 100 + r.f.id, kind: vInvoked, params: []*vParam{p}}
+	g.layout()
+	fn := reflect.MakeFunc(g.typ, func([]reflect.Value) []reflect.Value {
+		e.nestRan = true
+		return nil
+	})
+	o := vGuard(func() error { return w.scopes[r.scope].Invoke(fn.Interface()) })
+	e.nested = o.class
+	ran := "0"
+	if e.nestRan {
+		ran = "1"
+	}
+	w.record(" nested f" + vItoa(r.f.id) + ":" + vClassNames[o.class] + ":ran=" + ran + vPanicText(o.panicv))
+	verifWitness("reentered")
 }
 
 func (w *vWorld) newVal(e *vExec, res, elem int, t reflect.Type) reflect.Value {
